@@ -28,11 +28,17 @@ type gateSrc struct {
 	done   bool
 	doneK  int
 	busy   atomic.Int32 // Next calls in flight
+	closed atomic.Int32
 }
 
 func (s *gateSrc) Next(ctx context.Context) (int, error) {
-	s.busy.Add(1)
+	if s.busy.Add(1) > 1 {
+		s.r.emit(Ev{"ev": "srcviol", "what": "two Next calls overlap", "i": s.idx})
+	}
 	defer s.busy.Add(-1)
+	if s.closed.Load() > 0 {
+		s.r.emit(Ev{"ev": "srcviol", "what": "Next after Close", "i": s.idx})
+	}
 	if s.done { // sticky end / error
 		if s.doneK == 2 {
 			return 0, errSrc
@@ -60,6 +66,12 @@ func (s *gateSrc) Next(ctx context.Context) (int, error) {
 }
 
 func (s *gateSrc) Close() {
+	if s.busy.Load() > 0 {
+		s.r.emit(Ev{"ev": "srcviol", "what": "Close while Next is in flight", "i": s.idx})
+	}
+	if s.closed.Add(1) > 1 {
+		s.r.emit(Ev{"ev": "srcviol", "what": "second Close", "i": s.idx})
+	}
 	s.closes++
 	s.r.emit(Ev{"ev": "srcclose", "i": s.idx})
 }
